@@ -81,6 +81,7 @@ ExpectNum(e) ==
   LET g == ParseDoc(e.lit)
       rej == Nothing(BaseKind(e.k), FALSE)
   IN IF g.ok THEN (IF Len(g.c) = 1 THEN TokenMeaning(g.c[1], e.k, e.ctx) ELSE rej)     \* an object or array is never a scalar
+     ELSE IF e.ctx = "r" /\ (\A i \in 1..Len(e.lit) : IsWs(e.lit[i])) THEN Nothing(BaseKind(e.k), TRUE)   \* "[" ws "]": the empty list
      ELSE IF e.ctx = "w" \/ Inert(e.lit) THEN rej                                      \* the whole text is invalid JSON
      ELSE [ran |-> TRUE]
 
